@@ -4,6 +4,7 @@
    (combining) and C01 (events are locked until the unlock); the correspondence checks them
    on the real operator through C06_Spec.P. *)
 From Verif Require Import Common Op_Model Op_Proofs C06_Proofs.
+From Verif Require Op_Corr Op_Spec C06_Spec C06_PProofs.
 From Coq Require Import Permutation Sorted.
 
 (* onStartup hooks: ascending ORDER, path order among equal ORDER, each exactly once *)
@@ -87,3 +88,34 @@ Example C06_hyp_met :
   let s := exec cfg [Boot; Finish 0 false; Tick 1; Finish 0 true]%N init in
   exists M Qs, queues s = M :: Qs /\ existsb is_st (q_items M) = true.
 Proof. vm_compute. repeat split. eexists; eexists. split; reflexivity. Qed.
+
+(* The whole decidable predicate C06_Spec.P (startup order and "nothing before onStartup",
+   no exempt Synchronization shown, unlocking only by a main-queue Synchronization or by
+   exemption, schedule tasks only with all the hook's monitors unlocked, Synchronization
+   only in the main queue) holds of the model's own observations for EVERY well-formed
+   configuration and EVERY action sequence (failures, back-off waits, shutdown at any point). *)
+Theorem C06_P_holds : forall cfg acts,
+  Op_Spec.wf_config cfg = true -> has_queue (boot_queues cfg) no_queue = false ->
+  C06_Spec.P (cfg, acts, Op_Corr.model_obs (cfg, acts, [])) = true.
+Proof. exact C06_PProofs.P_holds. Qed.
+Print Assumptions C06_P_holds.
+
+(* non-vacuity of its hypotheses: four hooks (one v0, one with an exempt and two grouped
+   kubernetes bindings, named queues, schedules), a run with failing onStartup and
+   Synchronization executions, back-off waits, events, ticks and a shutdown; at the end all
+   five monitors are unlocked and every queue still holds tasks *)
+Example C06_P_hyp_met :
+  let cfg := [mkHook 1 false (Some 1%Z) [mkKb 1 0 2 false true 1; mkKb 2 3 0 true false 2; mkKb 3 0 2 false true 3]
+                     [mkSb 4 3 0 false 1];
+              mkHook 2 false (Some 0%Z) [] [mkSb 5 0 1 true 1; mkSb 6 4 0 false 2];
+              mkHook 3 true None [mkKb 7 0 0 false true 7] [];
+              mkHook 4 false (Some 1%Z) [mkKb 8 4 0 false true 8] []] in
+  let acts := [Boot; Finish 0 false; Finish 0 true; FinishWait 0; Tick 1; Elapse 0; Finish 0 true; Finish 0 true;
+               Finish 0 false; KubeEv 1 1; Finish 0 true; KubeEv 2 2; KubeEv 3 3; Tick 1; Finish 0 true;
+               FinishWait 3; KubeEv 8 4; Tick 2; Elapse 3; Finish 3 true; Finish 4 false; Stop; Finish 4 true;
+               Tick 1; Finish 0 true]%N in
+  Op_Spec.wf_config cfg = true /\ has_queue (boot_queues cfg) no_queue = false /\
+  let s := exec cfg acts init in
+  stopped s = true /\ Op_Corr.sort_dedup (unlocked s) = [1; 2; 3; 7; 8]%N /\
+  map (fun q => (q_name q, N.of_nat (length (q_items q)))) (queues s) = [(0, 2); (3, 1); (4, 1)]%N.
+Proof. vm_compute. repeat split. Qed.
